@@ -80,6 +80,7 @@ def _c13(ctx):
     from .rules import bounds
     # float-to-integer conversions are examined in every library file, indexes in the codecs
     out.append(_x7(ctx, bounds.CODEC_FILES, 50, 35, 35, conv_files=('.cpp', '.hpp')))
+    out.append(_idx1(ctx, None, 80))
     out.append(_x9(ctx, bounds.CODEC_FILES, 5, 200))
     out.append(_x10(ctx))
     out.append(_x2v(ctx))
@@ -100,6 +101,19 @@ def _x7(ctx, files, fl_idx, fl_proved, fl_conv=0, conv_files=None):
     r.floor('array indexes examined', n, fl_idx)
     r.floor('indexes proved in range', p, fl_proved)
     r.floor('float-to-integer conversions examined', r.analysed.get('float_to_int_conversions', 0), fl_conv)
+    return r
+
+
+def _idx1(ctx, files, floor):
+    from .rules import bounds
+    from .core import RuleResult
+    if ctx.prog.raw.get('precision', 2) != 2:
+        r = RuleResult('IDX1', 'interval analysis skipped: end points are modelled in IEEE double, which is only faithful '
+                               'for GEOGRAPHICLIB_PRECISION=2')
+        r.ob(True, {'skipped': True})
+        return r
+    r, n = bounds.rule_IDX1(ctx, files)
+    r.floor('indexes into fixed-size local arrays', n, floor)
     return r
 
 
@@ -211,7 +225,9 @@ def _c10(ctx):
     rw, nchain, ncalls = rewrite.rule_RW1(ctx, ('src/DMS.cpp',))
     rw.floor('rewrite chains in DMS.cpp', nchain, 1)
     rw.floor('rewrite calls', ncalls, 40)
-    return _exc_rules(ctx, 'C10') + [tool.rule_TOOL(ctx), tool.rule_S1(ctx), _w1(ctx, 'C10', 8), rw]
+    return _exc_rules(ctx, 'C10') + [tool.rule_TOOL(ctx), tool.rule_S1(ctx), _w1(ctx, 'C10', 8), rw,
+                                     _idx1(ctx, ('src/DMS.cpp', 'src/GeoCoords.cpp', 'include/GeographicLib/Utility.hpp',
+                                                 'src/Utility.cpp', 'include/GeographicLib/DMS.hpp'), 4)]
 
 
 def _c18(ctx):
@@ -671,7 +687,8 @@ def _lint(ctx, prop):
         swp, nswp = lint.rule_SWP1(ctx, files)
         sc1, nsc1 = lint.rule_SC1(ctx, files)
         pos1, npos1 = lint.rule_POS1(ctx, files)
-        out += [sw, ov, n1, d3, cp, cp2, nb, zq, prt, tw, ang, one, aux1, swp, sc1, pos1]
+        dz1, ndz1 = lint.rule_DZ1(ctx, files)
+        out += [sw, ov, n1, d3, cp, cp2, nb, zq, prt, tw, ang, one, aux1, swp, sc1, pos1, dz1]
     return out
 
 
